@@ -54,6 +54,9 @@ func (h *Hist) RandString(n int) string {
 // CreateTable: column 0 is "k INT" (never NULL, ascending per table),
 // column 1 is "g INT" (never NULL, small domain); the rest is random and
 // nullable. The last column is often a VARCHAR used to size rows.
+// NextTableName is the name CreateTable will usually give the next table.
+func (h *Hist) NextTableName() string { return fmt.Sprintf("%s%d", h.Prefix, h.tabSeq+1) }
+
 func (h *Hist) CreateTable() *proto.Stmt {
 	h.tabSeq++
 	name := fmt.Sprintf("%s%d", h.Prefix, h.tabSeq)
